@@ -1,5 +1,5 @@
 (* C14: basic facts relating the implementation model (Model/PredImpl.v) to the reference
-   semantics (Model/SqlSpec.v) on operands and comparisons. *)
+   semantics (Model/SqlSpec.v) on values and comparisons. *)
 From Coq Require Import ZArith List Bool Lia.
 From TV Require Import Model.SqlSpec Model.PredImpl Model.PredClass Proof.SqlSpecLaws.
 Import ListNotations.
@@ -16,77 +16,56 @@ Ltac split_nz :=
   repeat match goal with
   | H : first_nz _ _ = 0 |- _ => apply first_nz_0 in H; destruct H
   end.
+Ltac split_and :=
+  repeat match goal with
+  | H : _ && _ = true |- _ => apply andb_prop in H; destruct H
+  end.
 
-(* how a reference value shows up in the implementation: exactly, except that NULL may also be
-   the `None` of eval_value (arithmetic over NULL) *)
+(* how a reference value shows up in eval_value: exactly (TRUE / FALSE as Int 1 / 0), except that
+   NULL may also be the `None` of arithmetic over NULL *)
 Definition Rv (v : value) (o : option ivalue) : Prop :=
   match v with
   | VNull => o = Some INull \/ o = None
   | _ => o = Some (inj v)
   end.
+(* ... and in the traversal evalx: a predicate node carries its truth value *)
+Definition opt_of_tv (t : tv) : option bool :=
+  match t with TT => Some true | FF => Some false | UU => None end.
+Definition Rx (v : value) (x : xval) : Prop :=
+  match x with
+  | XV o => Rv v o
+  | XT t => v = match t with Some b => VBool b | None => VNull end
+  end.
 
 Lemma Rv_nonnull : forall v o, v <> VNull -> Rv v o -> o = Some (inj v).
 Proof. intros [] o H R; cbn in *; congruence. Qed.
+Lemma Rv_inj : forall x, x <> VNull -> Rv x (Some (inj x)).
+Proof. intros [] H; cbn; congruence. Qed.
+Lemma Rv_none_null : forall v, Rv v None -> v = VNull.
+Proof. intros [] H; cbn in H; try discriminate. reflexivity. Qed.
+Lemma inj_nonnull : forall v, v <> VNull -> is_inull (inj v) = false.
+Proof. intros [] H; cbn; try congruence; reflexivity. Qed.
+Lemma Rv_some : forall v a, Rv v (Some a) -> a = inj v.
+Proof. intros [] a H; cbn in *; try congruence. destruct H; congruence. Qed.
 
-Lemma i64_lit_value : forall z, (z =? - 2 ^ 63) = false -> i64_ok z = true ->
-  lit_value (VInt z) = Ok (Some (IInt z)).
+Lemma Rx_as_val : forall v x, Rx v x -> Rv v (as_val x).
 Proof.
-  intros z Hm Hok. unfold lit_value, i64_ok in *. apply Z.eqb_neq in Hm.
-  apply andb_prop in Hok as [H1 H2]. apply Z.leb_le in H1. apply Z.ltb_lt in H2.
-  destruct (0 <=? z) eqn:E.
-  - destruct (z <? 2 ^ 63) eqn:F; [reflexivity|]. apply Z.ltb_ge in F. lia.
-  - apply Z.leb_gt in E. destruct (- z <? 2 ^ 63) eqn:F; [reflexivity|]. apply Z.ltb_ge in F. lia.
+  intros v [[b|]|o] H; cbn in *; subst; cbn; auto.
 Qed.
+Lemma Rx_as_tv : forall v x t, Rx v x -> tv_of_value v = Some t -> as_tv x = opt_of_tv t.
+Proof.
+  intros v [[b|]|o] t H Ht; cbn in *.
+  - subst v. destruct b; cbn in Ht; injection Ht as <-; reflexivity.
+  - subst v. cbn in Ht. injection Ht as <-. reflexivity.
+  - destruct v as [| | | |b]; cbn in Ht; try discriminate.
+    + injection Ht as <-. destruct H as [-> | ->]; reflexivity.
+    + cbn in H. subst o. destruct b; injection Ht as <-; reflexivity.
+Qed.
+Lemma Rx_of_tv : forall t, Rx (value_of_tv t) (XT (opt_of_tv t)).
+Proof. intros []; reflexivity. Qed.
 
-(* operands: outside the classes, eval_value computes the reference value and does not panic *)
-Lemma scalar_rel : forall e r v, cls_v e r = 0 -> eval e r = Some v ->
-  exists o, eval_value e r = Ok o /\ Rv v o.
-Proof.
-  induction e as [i|lv|op a IHa b IHb| | | | | | | |]; intros r w Hc He; cbn [cls_v] in Hc; try discriminate.
-  - (* ECol *) cbn [eval eval_value] in *. rewrite He in *.
-    destruct w; cbn; try discriminate; eexists; split; try reflexivity; cbn; auto.
-  - (* ELit *) cbn [eval eval_value] in *. injection He as <-.
-    destruct lv as [|z|b|s|b].
-    + eexists; split; [reflexivity|cbn; auto].
-    + destruct (z =? - 2 ^ 63) eqn:E1; [discriminate|]. destruct (i64_ok z) eqn:E2; [|discriminate].
-      rewrite (i64_lit_value z E1 E2). eexists; split; reflexivity.
-    + cbn [lit_value]. destruct (f_finite b); [|discriminate]. eexists; split; reflexivity.
-    + eexists; split; reflexivity.
-    + eexists; split; reflexivity.
-  - (* EArith *) split_nz. cbn [eval] in He.
-    destruct (eval a r) as [x|] eqn:E1; [|discriminate].
-    destruct (eval b r) as [y|] eqn:E2; [|discriminate].
-    destruct (IHa r x H E1) as (o1 & V1 & R1).
-    destruct (IHb r y H0 E2) as (o2 & V2 & R2).
-    cbn [eval_value]. rewrite V1, V2.
-    destruct x, y; cbn [arith_values] in He; try discriminate; cbn in R1, R2.
-    + (* NULL, NULL *) injection He as <-.
-      destruct R1 as [-> | ->], R2 as [-> | ->]; cbn; eexists; split; try reflexivity; cbn; auto.
-    + (* NULL, Int *) injection He as <-. subst o2.
-      destruct R1 as [-> | ->]; cbn; eexists; split; try reflexivity; cbn; auto.
-    + (* Int, NULL *) injection He as <-. subst o1.
-      destruct R2 as [-> | ->]; cbn; eexists; split; try reflexivity; cbn; auto.
-    + (* Int, Int *) subst o1 o2. cbn [bindo inj arith_i].
-      destruct (i64_ok (arith_z op z z0)); [|discriminate]. injection He as <-.
-      eexists; split; reflexivity.
-Qed.
-
-(* Some(Value::Null) only comes from a NULL cell or the NULL literal *)
-Lemma scalar_some_null : forall e r, cls_v e r = 0 -> eval_value e r = Ok (Some INull) -> dnull e r = true.
-Proof.
-  destruct e; intros r Hc Hv; cbn [cls_v] in Hc; try discriminate.
-  - cbn [eval_value dnull] in *. destruct (nth_error r i) as [[]|]; cbn in *; congruence.
-  - cbn [eval_value dnull] in *. destruct v as [|z|b|s|b]; cbn [lit_value] in Hv; try reflexivity.
-    + destruct (0 <=? z); [destruct (z <? 2 ^ 63)|destruct (- z <? 2 ^ 63)]; discriminate.
-    + destruct (f_finite b); discriminate.
-    + discriminate.
-    + destruct b; discriminate.
-  - exfalso. cbn [eval_value] in Hv.
-    destruct (eval_value e1 r) as [[x|]| |]; cbn [bindo] in Hv; try discriminate.
-    destruct (eval_value e2 r) as [[y|]| |]; cbn [bindo] in Hv; try discriminate.
-    destruct x, y; cbn [arith_i] in Hv; try discriminate.
-    destruct (i64_ok (arith_z op z z0)); discriminate.
-Qed.
+Lemma value_of_tv_inv : forall v t, tv_of_value v = Some t -> v = value_of_tv t.
+Proof. intros [| | | |[]] t H; cbn in H; try discriminate; injection H as <-; reflexivity. Qed.
 
 (* ------------------------------------------------------------------ comparisons *)
 Lemma round53_small : forall x, int_float_safe x = true -> round53 x = x.
@@ -130,13 +109,31 @@ Proof.
   - congruence.
 Qed.
 
-(* a NULL on either side: the reference says UNKNOWN; value_cmp says None *)
-Lemma cmp_values_null_l : forall y, exists k, cmp_values VNull y = Some None /\ k = tt.
-Proof. intros []; exists tt; split; reflexivity. Qed.
+Lemma values_equal_spec : forall x y c,
+  cmp_values x y = Some (Some c) -> values_equal (inj x) (inj y) = cmp_holds CEq c.
+Proof.
+  intros x y c H. destruct x, y; cbn [cmp_values] in H; try discriminate; cbn [inj values_equal ib].
+  - injection H as <-. destruct (Z.compare_spec z z0) as [E|E|E]; cbn.
+    + now apply Z.eqb_eq.
+    + apply Z.eqb_neq. lia.
+    + apply Z.eqb_neq. lia.
+  - destruct (ifcmp z bits) as [c'|] eqn:E; cbn in H; [|discriminate]. injection H as <-.
+    rewrite (ifcmp_impl _ _ _ E). now destruct c'.
+  - destruct (ifcmp z bits) as [c'|] eqn:E; cbn in H; [|discriminate]. injection H as <-.
+    rewrite (ifcmp_impl _ _ _ E). now destruct c'.
+  - destruct (fcmp bits bits0) as [c'|] eqn:E; cbn in H; [|discriminate]. injection H as <-.
+    unfold f_partial_cmp. rewrite E. now destruct c'.
+  - injection H as <-. destruct (bytes_cmp s s0) eqn:E; cbn.
+    + apply zlist_eqb'_eq. now apply bytes_cmp_eq.
+    + destruct (zlist_eqb' s s0) eqn:F; [|reflexivity]. apply zlist_eqb'_eq in F.
+      apply (proj2 (bytes_cmp_eq s s0)) in F. congruence.
+    + destruct (zlist_eqb' s s0) eqn:F; [|reflexivity]. apply zlist_eqb'_eq in F.
+      apply (proj2 (bytes_cmp_eq s s0)) in F. congruence.
+  - injection H as <-. now destruct b, b0.
+Qed.
+
 Lemma cmp3_null_l : forall op y, cmp3 op VNull y = Some UU.
 Proof. intros op []; reflexivity. Qed.
-Lemma cmp3_null_r : forall op x, cmp3 op x VNull = Some UU \/ cmp3 op x VNull = None.
-Proof. intros op []; cbn; auto. Qed.
 Lemma cmp3_null_r' : forall op x t, cmp3 op x VNull = Some t -> t = UU.
 Proof. intros op [] t H; cbn in H; congruence. Qed.
 Lemma cmp3_null_l' : forall op y t, cmp3 op VNull y = Some t -> t = UU.
@@ -154,18 +151,60 @@ Proof.
       end.
 Qed.
 
-Lemma value_cmp_null_l : forall y, value_cmp INull y = None.
-Proof. now intros []. Qed.
-Lemma value_cmp_null_r : forall x, value_cmp x INull = None.
-Proof. now intros []. Qed.
+Lemma value_eq_null_dec : forall v : value, v = VNull \/ v <> VNull.
+Proof. intros []; (now left) || (right; discriminate). Qed.
 
 Lemma tv_is_true_of_bool : forall b, tv_is_true (tv_of_bool b) = b.
 Proof. now intros []. Qed.
-
-Lemma inj_nonnull : forall v, v <> VNull -> inj v <> INull.
-Proof. intros [] H; cbn; try congruence. destruct b; discriminate. Qed.
-
-Lemma truthy_ib : forall b, truthy (Some (ib b)) = b.
+Lemma opt_of_bool : forall b, opt_of_tv (tv_of_bool b) = Some b.
 Proof. now intros []. Qed.
-Lemma value_to_bool_ib : forall b, value_to_bool (ib b) = b.
+Lemma and3_spec : forall a b, and3 (opt_of_tv a) (opt_of_tv b) = opt_of_tv (tv_and a b).
+Proof. now intros [] []. Qed.
+Lemma or3_spec : forall a b, or3 (opt_of_tv a) (opt_of_tv b) = opt_of_tv (tv_or a b).
+Proof. now intros [] []. Qed.
+Lemma not3_spec : forall a, option_map negb (opt_of_tv a) = opt_of_tv (tv_not a).
 Proof. now intros []. Qed.
+Lemma neg3_spec : forall neg a,
+  option_map (xorb neg) (opt_of_tv a) = opt_of_tv (if neg then tv_not a else a).
+Proof. now intros [] []. Qed.
+
+(* the comparison arm of eval_tv *)
+Definition cmp_tv (o1 o2 : option ivalue) (op : cmpop) : option bool :=
+  match o1, o2 with
+  | Some a, Some b => if is_inull a || is_inull b then None else Some (compare_values a b op)
+  | _, _ => None
+  end.
+Lemma cmp_tv_correct : forall op x y t o1 o2,
+  cmp3 op x y = Some t -> Rv x o1 -> Rv y o2 -> cmp_tv o1 o2 op = opt_of_tv t.
+Proof.
+  intros op x y t o1 o2 Hc R1 R2.
+  destruct (value_eq_null_dec x) as [->|Hx].
+  - rewrite (cmp3_null_l' _ _ _ Hc). destruct R1 as [-> | ->]; [|reflexivity].
+    destruct o2; reflexivity.
+  - apply (Rv_nonnull _ _ Hx) in R1. subst o1.
+    destruct (value_eq_null_dec y) as [->|Hy].
+    + rewrite (cmp3_null_r' _ _ _ Hc). destruct R2 as [-> | ->]; cbn; [|reflexivity].
+      now rewrite orb_true_r.
+    + apply (Rv_nonnull _ _ Hy) in R2. subst o2.
+      destruct (cmp3_nonnull _ _ _ _ Hc Hx Hy) as (c & Hv & ->).
+      unfold cmp_tv. rewrite (inj_nonnull x Hx), (inj_nonnull y Hy). cbn [orb].
+      unfold compare_values. rewrite (cmp_ordering_spec _ _ _ Hv). now rewrite opt_of_bool.
+Qed.
+
+(* one bound of BETWEEN *)
+Lemma between_side_correct : forall op rej x y t xi yi,
+  (op = CGe /\ rej = Lt) \/ (op = CLe /\ rej = Gt) ->
+  cmp3 op x y = Some t -> Rv x (Some xi) -> Rv y (Some yi) ->
+  between_side xi yi rej = opt_of_tv t.
+Proof.
+  intros op rej x y t xi yi Hop Hc R1 R2.
+  apply Rv_some in R1. apply Rv_some in R2. subst xi yi.
+  destruct (value_eq_null_dec x) as [->|Hx].
+  - rewrite (cmp3_null_l' _ _ _ Hc). reflexivity.
+  - destruct (value_eq_null_dec y) as [->|Hy].
+    + rewrite (cmp3_null_r' _ _ _ Hc). unfold between_side. cbn [inj is_inull]. now rewrite orb_true_r.
+    + destruct (cmp3_nonnull _ _ _ _ Hc Hx Hy) as (c & Hv & ->).
+      unfold between_side. rewrite (inj_nonnull x Hx), (inj_nonnull y Hy). cbn [orb].
+      rewrite (value_cmp_spec _ _ _ Hv), opt_of_bool.
+      destruct Hop as [[-> ->]|[-> ->]]; now destruct c.
+Qed.
